@@ -86,7 +86,15 @@ func main() {
 	outp := flag.String("out", "", "cases file")
 	replay := flag.String("replay", "", "re-execute the case recorded in this file on the implementation")
 	worker := flag.Bool("worker", false, "internal: execute cases read from stdin, one JSON object per line")
+	facts := flag.String("facts", "", "write the facts extracted from /repo's source as a Lean file and exit")
 	flag.Parse()
+	if *facts != "" {
+		if err := writeFacts(*facts); err != nil {
+			fmt.Fprintln(os.Stderr, "fact extraction failed:", err)
+			os.Exit(4)
+		}
+		return
+	}
 	if *worker {
 		workerLoop()
 		return
